@@ -67,7 +67,7 @@ MUTANTS = [
     ("m07b", ["C07", "C06"], "rust: Option dropped for null-admitting unions", [(RC, '''        optional = optional or is_special(type_def)
     elif type_def.kind == "literal":''', '''        optional = optional
     elif type_def.kind == "literal":''')], None),
-    ("m07c", ["C07"], "rust: enum value off by one in the Deserialize impl", [(RE, '''        de += [f"{item.value} => Ok({full_name}),"]''', '''        de += [f"{item.value + 1 if item.value == 3 else item.value} => Ok({full_name}),"]''')], None),
+    ("m07c", ["C07"], "rust: enum value off by one in the Deserialize impl", [(RE, '''        de += item_gate + [f"{item.value} => Ok({full_name}),"]''', '''        de += item_gate + [f"{item.value + 1 if item.value == 3 else item.value} => Ok({full_name}),"]''')], None),
     ("m08a", ["C08"], "dotnet: DataMember name upper-camel", [(DC, '''            f'[DataMember(Name = "{prop_def.name}")]',''', '''            f'[DataMember(Name = "{name if prop_def.name == "textDocument" else prop_def.name}")]',''')], None),
     ("m08b", ["C08"], "dotnet: notification direction taken from the last request again", [(DC, '''to_upper_camel_case(notification.messageDirection)''', '''to_upper_camel_case(request.messageDirection)''')], None),
     ("m08c", ["C08"], "dotnet: NullValueHandling.Ignore also on null-admitting properties", [(DC, '''            if optional and not special_optional
@@ -86,7 +86,7 @@ MUTANTS = [
         return not special''', '''        special = lsp_types.is_special_property(cls, prop) and prop != "result"
         return not special''')], None),
     ("m11a", ["C11", "C04", "C05"], "a required field given default=None", [(T, '''    unique: UniquenessLevel = attrs.field()''', '''    unique: UniquenessLevel = attrs.field(default=None)''')], None),
-    ("m12a", ["C12"], "INTEGER_MAX_VALUE = 2**31", [(V, "INTEGER_MAX_VALUE = 2**31 - 1\n\n\ndef integer_validator", "INTEGER_MAX_VALUE = 2**31\n\n\ndef integer_validator")], None),
+    ("m12a", ["C12"], "INTEGER_MAX_VALUE = 2**31", [(V, "INTEGER_MIN_VALUE = -(2**31)\nINTEGER_MAX_VALUE = 2**31 - 1\n", "INTEGER_MIN_VALUE = -(2**31)\nINTEGER_MAX_VALUE = 2**31\n")], None),
     ("m12b", ["C12", "C11"], "uinteger minimum -1", [(V, "UINTEGER_MIN_VALUE = 0", "UINTEGER_MIN_VALUE = -1")], None),
     ("m13a", ["C13", "C04", "C05"], "one enum member deleted", [(T, '''    Unnecessary = 1
 ''', '')], None),
